@@ -14,6 +14,7 @@
 package evm
 
 import (
+	"errors"
 	"runtime"
 	"sync"
 	"sync/atomic"
@@ -48,6 +49,8 @@ type appTx struct {
 	status   int32
 	err      error
 }
+
+var errEmptyTx = errors.New("empty transaction")
 
 type BeginExecFunc func() (ExecFunc, EndExecFunc)
 type ExecFunc func(index int, raw []byte, tx *etypes.Transaction) error
@@ -159,6 +162,9 @@ func txQueue(tptx gtypes.Tx, apptxQ [][]appTx, i, j int) error {
 		if err := rlp.DecodeBytes(tptx, cur.tx); err != nil {
 			cur.err = err
 		}
+	} else {
+		// no bytes, no transaction: invalid like anything else that does not decode
+		cur.err = errEmptyTx
 	}
 
 	atomic.StoreInt32(&cur.status, appTxStatusInit)
